@@ -180,6 +180,10 @@ def check_case(res, cid, spec, steps, script, gs_lines, sel_lines, stats):
         if t[0] != "dump" or "meta" not in st.obs:
             continue
         m = st.obs["meta"]
+        if int(m["loaded"]) + int(m["needed"]) > 150000:
+            # a refinement on noisy data proposed hundreds of thousands of points: beyond what the exact model replays in minutes; the case ends
+            stats["cases_ended_at_a_state_too_large_for_the_model"] = stats.get("cases_ended_at_a_state_too_large_for_the_model", 0) + 1
+            return
         cur = {"nloaded": int(m["loaded"]), "nneeded": int(m["needed"]), "points": st.obs.get("points", []), "needed": st.obs.get("needed", []),
                "pidx": st.obs.get("pidx", []), "nidx": st.obs.get("nidx", []), "values": st.obs.get("values", []), "limits": st.obs.get("limits", []),
                "coef": st.obs.get("coef")}
@@ -466,6 +470,7 @@ def run(res, tier, seed, replay_script=None):
 
     res.coverage["calls_not_returning_within_the_case_limit_not_judged"] = stats.get("slow_calls_skipped", 0)
     res.coverage["cases_cut_short_by_the_case_limit"] = stats.get("cases_cut_short_by_the_case_limit", 0)
+    res.coverage["cases_ended_at_a_state_too_large_for_the_model"] = stats.get("cases_ended_at_a_state_too_large_for_the_model", 0)
     res.coverage.update({
         "evaluations": len(cases) + len(ucases), "distinct_nontrivial": nontrivial,
         "rule": "histories = make (random family/rule/dims/depth/order/limits/transform) ; load ; 2-9 random ops among surplus/anisotropic "
